@@ -154,5 +154,5 @@ package schema
 //@ site named-check-expression-rejoined
 //@   match call strings.Join
 //@   in schema.(*Schema).ParseCheckConstraints
-//@   min-sites 1
+//@   min-sites 2
 //@   assert rejoined-with-the-comma-it-was-split-on: arg1 == "," [C20]
